@@ -7,6 +7,7 @@ class C03(Prop):
     coq_targets = ["props/C03.vo"]
     props_file = "props/C03.v"
     design_ref = "DESIGN.md §4 C03"
+    spec_streams = ("deb822-doc",)
     level_text = ("Coq theorems over every well-formed abstract document (Grammar.doc with wf_doc: arbitrary valid names, arbitrary value lines "
                   "without LF/CR, every placement of comments and blank lines, every indentation and colon spacing, optional final newline): the lexer "
                   "produces exactly doc_toks d, the parser builds exactly tree_of d with no error, printing gives back render d, items() of every "
